@@ -128,7 +128,8 @@ def _xs_variant(rng, nom):
         xs = xs[:1] + xs
     elif how == "shuffled":
         rng.shuffle(xs)
-    return xs, how, (a, b)
+    xs = [float("%.15g" % x) for x in xs]          # what a text file can hold
+    return xs, how, (float("%.15g" % a), float("%.15g" % b))
 
 
 def gen_seq(rng, maxlen):
@@ -522,6 +523,11 @@ def fresh_path(tmpdir):
     return os.path.join(tmpdir, "table_%d.txt" % next(_COUNTER))
 
 
+def exact15(v):
+    """survives the %.15g text format unchanged"""
+    return float("%.15g" % v) == float(v)
+
+
 def on_grid(v):
     return abs(v) < 4096 and float(v * 4096).is_integer()
 
@@ -568,6 +574,12 @@ class TagWorld:
             f.calls.clear()
             o = op["op"]
             op = dict(op)
+            if o == "wr" and f.hasInterpolation() and not (
+                    exact15(f.interpolationRangeMin()) and exact15(f.interpolationRangeMax())):
+                # the text format keeps 15 digits: a table END with more digits moves by an ulp
+                # or so in the file, which the exact model cannot follow (pass B runs the op)
+                note = "skipped"
+                continue
             if o == "deriv":
                 p = direct_pos(op)
                 op["pos"] = [] if p is None else [float(v) for v in p.ravel()]
@@ -799,8 +811,8 @@ def differential(ctx, world, seqs, tmpdir, label):
         ctx.count("diff_sequences_" + label, jseq(seq["cfg"], ops),
                   bucket="k%d %s%s" % (seq["cfg"]["k"], "adaptive" if seq["cfg"]["adapt"] else "fixed",
                                        " nan-window" if seq["cfg"]["bad"] else ""))
-        if note and note.startswith("truncated"):
-            ctx.count("diff_truncated_" + label, None, nontrivial=False)
+        if note == "skipped":
+            ctx.count("diff_wr_skipped_" + label, None, nontrivial=False)
     ok_runs = [r for r in runs if not (r[3] or "").startswith("unexpected")]
     for seq, ops, obs, note in runs:
         if (note or "").startswith("unexpected"):
@@ -1404,7 +1416,8 @@ class Real:
                       "its abscissa" % (np.round(xs, 4).tolist(), op.get("how"),
                                         np.round(xf, 4).tolist()), seq, i, "user-table-accepted")
             return False
-        if not np.array_equal(np.array(post["tab"]), xf):
+        if len(post["tab"]) != len(xf) or not np.allclose(np.array(post["tab"]), xf, rtol=2e-15,
+                                                          atol=0.0):
             self.fail("user table: stored abscissae %s are not the finite rows %s" % (
                 np.round(post["tab"], 4).tolist(), np.round(xf, 4).tolist()), seq, i,
                 "rows-not-dropped-individually")
@@ -1531,7 +1544,9 @@ def ulp_hazards(ctx, rng, n):
                       "table-not-increasing")
             continue
         n0, n1 = spline_errors(f, k)
-        if n0 > 20 * e0 + 1e-10 or n1 > 20 * e1 + 1e-7:
+        # (the class resolves extensions down to 1e-8 of the table width: there the values keep
+        # ~1e-11 and the first derivative ~1e-6)
+        if n0 > max(20 * e0, 1e-9) or n1 > max(20 * e1, 1e-5):
             fail_once(ctx, "after an extension by %g ulp (%d+%d points requested, %d stored) the "
                       "interpolated function is off by %.3g (before: %.3g), its derivative by %.3g "
                       "(before: %.3g): knots %.3g apart" % (j, pl, ph, len(t), n0, e0, n1, e1,
